@@ -2,7 +2,7 @@
 R-PTRPTR (C06, C09): no pointer-to-pointer handed to a byte-buffer parameter."""
 import re
 
-from .prog import (AnalysisBroken, key, strip, strip_parens, walk, const_value, enum_name, edpe_blocks, block_nodes)
+from .prog import (AnalysisBroken, key, strip, strip_parens, walk, const_value, enum_name, edpe_blocks, block_nodes, resolve_key)
 
 
 def passes_through(f, stmt_ids):
@@ -22,6 +22,47 @@ def passes_through(f, stmt_ids):
         if b == cfg.exit:
             return False
         st.extend(cfg.blocks[b].rsucc)
+    return True
+
+
+def reaches_on_all_paths(P, f, target, depth=0):
+    """Every path through f executes a call to `target`, directly or inside a helper that itself does so on all
+    its paths (helpers extracted from the wrappers)."""
+    ids = []
+    for c in f.calls():
+        cal = c.get("callee")
+        if cal == target:
+            ids.append(c["i"])
+        elif cal and depth < 2:
+            g = P.resolve(f, cal)
+            if g is not None and P.first_party(g) and g is not f and g.unit is f.unit and \
+                    any(True for _ in g.calls()) and reaches_on_all_paths(P, g, target, depth + 1)[0]:
+                ids.append(c["i"])
+    return passes_through(f, ids), ids
+
+
+def returns_copy_of(P, g, engine_fn):
+    """Helper g returns my_strdup(...) of the engine function's result (or NULL) on every path."""
+    if not any(True for _ in g.calls(engine_fn)):
+        return False
+    rets = [n for n in g.walk() if n["k"] == "ReturnStmt" and n["c"] and n["c"][0] is not None]
+    if not rets:
+        return False
+    for r in rets:
+        e = strip(r["c"][0])
+        if e is None:
+            return False
+        if const_value(e) == 0:
+            continue
+        if e["k"] == "CallExpr" and e.get("callee") in ("my_strdup", "strdup"):
+            continue
+        if e["k"] == "DeclRefExpr":
+            # variable last assigned from my_strdup
+            srcs = [strip(x["c"][1]) for x in g.walk() if x["k"] == "BinaryOperator" and x["op"] == "=" and key(x["c"][0]) == e["n"]]
+            srcs += [strip(x["c"][0]) for x in g.walk() if x["k"] == "VarDecl" and x["n"] == e["n"] and x.get("c") and x["c"][0] is not None]
+            if srcs and any(sx is not None and sx["k"] == "CallExpr" and sx.get("callee") in ("my_strdup", "strdup") for sx in srcs):
+                continue
+        return False
     return True
 
 
@@ -97,12 +138,15 @@ def r_wrap(P, chk):
                 continue
             n_w1 += 1
             calls = [c for c in f.calls(eng.name)]
-            ok = passes_through(f, [c["i"] for c in calls])
-            chk.obligation(rid, "W1 %s reaches %s on every path" % (f.name, eng.name), ok)
+            ok, reach_ids = reaches_on_all_paths(P, f, eng.name)
+            via_helper = [c for c in f.calls() if c["i"] in reach_ids and c.get("callee") != eng.name]
+            chk.obligation(rid, "W1 %s reaches %s on every path%s" % (f.name, eng.name, " (through %s)" % via_helper[0]["callee"] if via_helper else ""), ok)
             if not ok:
                 chk.violation(rid, "W1:%s" % f.name, f.where(),
                               "%s does not call %s on every path (the variant %s its result)" % (
-                                  f.name, eng.name, "never produces" if not calls else "can skip"))
+                                  f.name, eng.name, "never produces" if not (calls or via_helper) else "can skip"))
+            if not calls:
+                calls = via_helper
             # W3 ownership
             var, creator, cnode = engine_var(f)
             if var is None:
@@ -151,7 +195,7 @@ def r_wrap(P, chk):
                     chk.violation(rid, "W2:%s" % f.name, f.where(),
                                   "%s does not call mmd_engine_set_language(%s, language) before %s" % (f.name, var, eng.name))
             # parameters handed through unchanged
-            for c in calls:
+            for c in [c for c in calls if c.get("callee") == eng.name]:
                 eargs = [key(a) for a in c["c"][2:]]
                 eparams = [p[0] for p in eng.params[1:]]
                 okp = eargs == eparams
@@ -170,6 +214,13 @@ def r_wrap(P, chk):
                 dup = [c for c in f.calls() if c.get("callee") in ("my_strdup", "strdup")]
                 okd = bool(dup) and all(not any(f.cfg.dominates(fr["i"], d["i"]) for fr in frees) for d in dup) and \
                     any(f.cfg.dominates(c["i"], d["i"]) for c in calls for d in dup)
+                if not okd:
+                    # the copy may live in a helper that wraps the engine call
+                    for c in calls:
+                        g = P.resolve(f, c.get("callee") or "")
+                        if g is not None and g is not eng and returns_copy_of(P, g, eng.name) and \
+                                not any(f.cfg.dominates(fr["i"], c["i"]) for fr in frees):
+                            okd = True
                 chk.obligation(rid, "W3 %s copies the engine-owned value before freeing the engine" % f.name, okd)
                 if not okd:
                     chk.violation(rid, "W3:copy:%s" % f.name, f.where(), "%s returns the engine-owned metadata value without "
@@ -296,7 +347,7 @@ def r_wrap(P, chk):
         if cond is None or cond["k"] != "BinaryOperator" or cond["op"] != "==":
             continue
         call = strip(cond["c"][0])
-        if call is None or call["k"] != "CallExpr" or call.get("callee") != "strcmp" or "a_format" not in key(call["c"][1]):
+        if call is None or call["k"] != "CallExpr" or call.get("callee") != "strcmp" or "a_format" not in resolve_key(main, call["c"][1]):
             continue
         lit = strip(call["c"][2])
         if lit is None or lit["k"] != "StringLiteral":
